@@ -147,6 +147,14 @@ class Gen:
             inner["fields"].append(fld("q", use(p_["full"])))
         if r.random() < 0.5:
             outer["fields"].append(fld("w", use(x["full"])))
+        if r.random() < 0.6:
+            # both in one union: they differ in namespace only
+            br = [{"k": "ref", "full": p_["full"]}, {"k": "ref", "full": x["full"]}]
+            if r.random() < 0.5:
+                br.reverse()
+            if r.random() < 0.5:
+                br.insert(r.randint(0, 2), {"k": "prim", "name": "null"})
+            outer["fields"].append(fld("u", {"k": "union", "br": br}))
         return outer
 
     def defaults_schema(self):
@@ -692,6 +700,9 @@ class Gen:
                 continue
             if omit and f["hasdef"] and r.random() < 0.5:
                 continue
+            if f["hasdef"] and f["default"] is not None and self.accepts_null(ft) and r.random() < 0.4:
+                out[f["name"]] = None          # an explicit None is a value (the null branch), not an absent field
+                continue
             if omit and not f["hasdef"] and r.random() < 0.2 and self.accepts_null(ft):
                 continue
             if depth > 5 and self.accepts_null(ft):
@@ -723,9 +734,14 @@ class Gen:
         if n == "boolean":
             return r.random() < 0.5
         if n == "int":
-            return r.choice(INT_POOL) if r.random() < 0.6 else r.randint(-2 ** 31, 2 ** 31 - 1)
+            x = r.random()
+            if x < 0.12:
+                return r.choice([2 ** 31 - 1, -2 ** 31])            # the extremes are not symmetric
+            return r.choice(INT_POOL) if x < 0.6 else r.randint(-2 ** 31, 2 ** 31 - 1)
         if n == "long":
             x = r.random()
+            if x < 0.08:
+                return r.choice([2 ** 63 - 1, -2 ** 63])
             if x < 0.6:
                 return r.choice(LONG_POOL)
             k = r.randint(1, 9)
